@@ -19,6 +19,7 @@
 #include <unistd.h>
 #include <signal.h>
 #include <sys/mman.h>
+#include <sys/prctl.h>
 #include <sys/wait.h>
 #include <sys/time.h>
 #include <sys/resource.h>
@@ -204,6 +205,7 @@ inline std::string run_isolated(const std::function<std::string(const std::vecto
 		fflush(stdout); fflush(stderr);
 		pid_t pid = fork();
 		if(pid == 0) {
+			prctl(PR_SET_PDEATHSIG, SIGKILL);   // a pass that hangs must not outlive the instance process
 			close(pfd[0]);
 			slot_ptr() = sl;
 			std::string out = fn(crashes);
